@@ -146,6 +146,9 @@ def run_sequence(cs, ctx):
         ex = en.run_lp(spec, opts, ctx.workdir, rng, inject=False, text=text, argv=argv, time_limit=limit, faults=fl,
                        clock=VirtualClock(), getters=('short', 'long'))
         ctx.cnt('schedules_executed')
+        if any(e.get('backend_fault') for e in ex['events']):
+            ctx.cnt('excluded_backend_returned_infeasible_point')
+            continue
         probs, info = judge(ex, limit)
         desc = {'limit': limit, 'faults': faults, 'K': K}
         key = sp.shash([text, argv[2:], desc])
